@@ -46,6 +46,7 @@ def mc_configs(quick: bool) -> List[Tuple[str, Dict[str, Any], bool]]:
          b(Prog=Raw("<- Prog_GPre"), PreFiles={971}, **G1), False),
     ]
     if not quick:
+        c += [("two collectors || append", b(Prog=Raw("<- Prog_GG"), **dict(G1, Actors=Raw("<- AGG"), Role=Raw("<- Role_GG"), Idx=Raw("<- Idx_GG"), Handle=Raw("<- Sep_GG"), MaxClock=2)), True)]
         c += [("collector || two appenders (retry)", b(Prog=Raw("<- Prog_G2"), **dict(G2, MaxClock=2)), True),
               ("collector || append, one committer fault", b(Prog=Raw("<- Prog_GApp"), FaultKinds={"before", "async"}, FaultBudget=1, **G1), True)]
     return c
@@ -61,6 +62,8 @@ def scenarios(quick: bool) -> List[Scenario]:
     ]
     # a transaction that loses the commit race and retries while the collector runs: its data-file markers must survive the retry
     s.append(Scenario("gc-vs-2tx-retry", [A("c1", "committer", [{"t": "append"}]), A("c2", "committer", [{"t": "append", "n": 2}]), gc], **kw))
+    # collection takes no lock: two collectors at once (each may find its candidates already removed by the other)
+    s.append(Scenario("2gc-vs-append", [A("c1", "committer", [{"t": "append"}]), gc, A("g2", "collector", [{"t": "gc", "grace": 1000}])], **kw))
     if not quick:
         s += [
             Scenario("gc-twice-vs-multi", [A("c1", "committer", [{"t": "multi", "n": 1, "refs": [("init", 1)], "cutoff": 8}]),
